@@ -1,6 +1,6 @@
 //! Small-scope grammar of well-formed HTTP/1.x heads (shared by C05, C20, C12).
 
-pub const FIELD_POOL: [&[u8]; 13] = [
+pub const FIELD_POOL: [&[u8]; 15] = [
     b"Location: /caf\xe9/\xfcber",
     b"A: 1",
     b"A: 2",
@@ -14,6 +14,10 @@ pub const FIELD_POOL: [&[u8]; 13] = [
     b"Transfer-Encoding: chunked",
     b"Connection: keep-alive",
     b"connection: Upgrade",
+    // obs-text that happens to be UTF-8 for Unicode white space (NBSP, IDEOGRAPHIC SPACE) at both ends of the value
+    b"X-Sp: \xc2\xa0v\xe3\x80\x80",
+    // a horizontal tab inside the value (between visible characters)
+    b"X-Tab: a\tb \t c",
 ];
 
 pub const STATUSES: [u16; 12] = [101, 200, 204, 299, 301, 302, 304, 307, 399, 404, 500, 999];
